@@ -15,6 +15,7 @@ grain (b) — the store:
   `commit`                               → `root <hex> l0 same version <v>`
   `reset`                                drop pending writes and the cached tree → `ok`
   `reopen`                               new Store object over the same database → `version <v>`
+  `rollback <v>`                         `Store.Rollback(v)`: back to the state and tree committed for height v → `version <v>`
   `copy` / `cset k v` / `cdel k` / `croot` / `cdiscard`   `Store.Copy()`: a second store with the same content; its
                                          writes and its `Root()` (what the clone inherits comes from the generated fact)
 
@@ -47,6 +48,8 @@ structure St where
   cached : Option Trie := none            -- the tree `Root()` built and keeps until reset/commit
   version : Nat := 0
   clone : Option (Pending × Option Trie) := none   -- `Store.Copy()`: the clone's pending writes and cached tree
+  snaps : List (Nat × Trie × KVs) := []   -- what was committed for every height (for `rollback`)
+  lastRoot : Bytes := []                  -- the root recorded for the current height (nothing on a fresh database)
 
 def initKvs (n : Nat) : KVs := [(minKey n, minVal), (maxKey n, maxVal)]
 
@@ -172,9 +175,26 @@ def step (s : St) (line : String) : St × String :=
     match storeRoot s with
     | (s', some t) =>
       let kvs := stateNow s'
-      ({ s' with tree := t, kvs := kvs, cached := none, pending := [], version := s'.version + 1 },
-        "root " ++ hexOrDash t.root ++ " l0 " ++ l0Tag t kvs ++ " version " ++ toString (s'.version + 1))
+      -- the root `Commit()` records and returns (`storeCommitRoot`, on the generated fact about `Commit`)
+      match storeCommitRoot Gen.SmtFacts.commitTakesRootFromRoot s.lastRoot s.cached (pendingOps s.n s.pending) (.ok t) with
+      | .ok root =>
+        let v := s'.version + 1
+        ({ s' with tree := t, kvs := kvs, cached := none, pending := [], version := v, lastRoot := root,
+                   snaps := (v, t, kvs) :: s'.snaps },
+          "root " ++ hexOrDash root ++ " l0 " ++ l0Tag t kvs ++ " version " ++ toString v)
+      | _ => (s', "err")
     | (s', none) => (s', "err")
+  | ["rollback", vs] =>
+    if !s.isStore then (s, "bad-op") else
+    match vs.toNat? with
+    | none => (s, "bad-op")
+    | some v =>
+      match s.snaps.find? (·.1 == v) with
+      | none => (s, "bad-op")
+      | some (_, t, kvs) =>
+        let t := rollbackTree Gen.SmtFacts.rollbackPrunedPrefixes Gen.SmtFacts.rootWritesPrefix t s.tree
+        ({ s with tree := t, kvs := kvs, cached := none, pending := [], txn := none, version := v, lastRoot := t.root,
+                  snaps := s.snaps.filter (·.1 ≤ v) }, "version " ++ toString v)
   | ["reset"] =>
     if !s.isStore then (s, "bad-op") else
     ({ s with cached := none, pending := [], txn := none }, "ok")
